@@ -9,7 +9,7 @@ R5 span-scoped directives: enter pushes / exit pops under the same predicate; cl
 """
 from rulekit import Facts, where
 from rulekit.sym import PathEval, show
-from rulekit.query import field_users, guards_of, closure_of_term
+from rulekit.query import field_users, guards_of, closure_of_term, norm_cmp
 
 D = "tracing_subscriber::filter::directive::"
 E = "tracing_subscriber::filter::env::"
@@ -104,7 +104,7 @@ def r2(ck, F):
         rows = {}
         for p in PathEval(b).run():
             if p.end == "return" and p.conds:
-                rows[(show(p.conds[0][0]), p.conds[0][1])] = show(p.ret)
+                rows[(show(p.conds[0][0]), p.conds[0][1])] = show(norm_cmp(p.ret))     # `level <= d.level` is `d.level >= level`
         first = "discr(next(%s))" % it
         lvl = "level(arg2)" if m == "enabled" else "arg3"
         want = {(first, 0): "0", (first, 1): "ge((next(%s) as Some).0.level, %s)" % (it, lvl)}
